@@ -34,6 +34,11 @@ type Inner struct {
 	Hijack bool   `json:"hijack,omitempty"` // the request modifier hijacks on this request
 	// MarkInsecure: the request modifier calls Session.MarkInsecure() on this request.
 	MarkInsecure bool `json:"mark_insecure,omitempty"`
+	// CloseDelimited (last request of the connection only): the origin answers
+	// without Content-Length or chunking and ends the response by closing its
+	// (TLS) connection, close_notify included; the end of the response that the
+	// proxy relays is then the end of the client's session.
+	CloseDelimited bool `json:"close_delimited,omitempty"`
 }
 
 // Case is one client connection.
@@ -62,6 +67,31 @@ type Case struct {
 	// request (a session in use for longer than the timeout, never idle that long).
 	TimeoutMs int `json:"timeout_ms,omitempty"`
 	GapMs     int `json:"gap_ms,omitempty"`
+	// SplitFirstMs > 0: the first byte the client sends inside the tunnel (the
+	// first byte of its ClientHello, or of its first request when the tunnel
+	// carries plain HTTP) travels alone; the rest follows this many milliseconds
+	// later (a fragmenting sender, a trickling link).
+	SplitFirstMs int `json:"split_first_ms,omitempty"`
+}
+
+// splitConn sends the first byte of its first Write on its own.
+type splitConn struct {
+	net.Conn
+	gap  time.Duration
+	done bool
+}
+
+func (c *splitConn) Write(b []byte) (int, error) {
+	if c.done || len(b) < 2 {
+		return c.Conn.Write(b)
+	}
+	c.done = true
+	if _, err := c.Conn.Write(b[:1]); err != nil {
+		return 0, err
+	}
+	time.Sleep(c.gap)
+	n, err := c.Conn.Write(b[1:])
+	return n + 1, err
 }
 
 const authority = "secure.test:443"
@@ -168,6 +198,9 @@ func runOnce(c Case, T time.Duration) (v kit.Verdict) {
 			receipts = append(receipts, receipt{id, isTLS, r.Host})
 			rmu.Unlock()
 			body := "BODY-" + id
+			if r.Header.Get("X-Verif-Close-Delimited") == "1" {
+				return netkit.Script{Raw: []byte("HTTP/1.1 200 OK\r\nContent-Type: text/plain\r\n\r\n" + body), CutAt: -1, After: "close"}
+			}
 			return netkit.Script{Raw: []byte(fmt.Sprintf("HTTP/1.1 200 OK\r\nContent-Length: %d\r\n\r\n%s", len(body), body)), CutAt: -1}
 		}
 	}
@@ -324,6 +357,9 @@ func runOnce(c Case, T time.Duration) (v kit.Verdict) {
 			return kit.Failf("C05/"+m+"/connect/"+class, "CONNECT: %v %v", res, err)
 		}
 		connectSess = true
+		if c.SplitFirstMs > 0 {
+			conn = &splitConn{Conn: conn, gap: time.Duration(c.SplitFirstMs) * time.Millisecond}
+		}
 		if !c.PlainInside && !upgrade() {
 			return v
 		}
@@ -370,6 +406,9 @@ func runOnce(c Case, T time.Duration) (v kit.Verdict) {
 		}
 		if in.MarkInsecure {
 			sb.WriteString("X-Verif-Mark-Insecure: 1\r\n")
+		}
+		if in.CloseDelimited {
+			sb.WriteString("X-Verif-Close-Delimited: 1\r\n")
 		}
 		sb.WriteString("\r\n")
 		sents = append(sents, sent{id, in.Form, in.Hijack, wantHost})
@@ -489,7 +528,9 @@ func runOnce(c Case, T time.Duration) (v kit.Verdict) {
 				v.Addf(pre+"wrong-host", "request %s: modifier saw URL host %q, want %q (own authority, or the tunnel's when none is given)", s.id, got.urlHost, s.wantHost)
 			}
 		} else {
-			if got.scheme != "http" || got.secure || got.hasTLS {
+			// (when the tunnel itself travels over a TLS connection to the proxy,
+			// whether req.TLS describes that outer connection is not specified)
+			if got.scheme != "http" || got.secure || (got.hasTLS && c.Listener != "tls-connect") {
 				v.Addf(pre+"plain-traffic-treated-as-secure", "request %s inside a tunnel without TLS: scheme %q secure=%v tls=%v", s.id, got.scheme, got.secure, got.hasTLS)
 			}
 		}
@@ -536,8 +577,9 @@ func genCase(t *rapid.T) Case {
 	transparent := c.Listener == "transparent" || c.Listener == "shaped-transparent"
 	if transparent {
 		c.SNI = true
-	} else if c.Listener != "tls-connect" && rapid.IntRange(0, 7).Draw(t, "plain_inside") == 0 {
-		// (inside a TLS connection to the proxy even "plain" tunnel traffic arrives over TLS)
+	} else if rapid.IntRange(0, 7).Draw(t, "plain_inside") == 0 {
+		// (also when the CONNECT itself arrived over a TLS connection to the
+		// proxy: what the tunnel carries is still not TLS)
 		c.PlainInside = true
 	}
 	if !transparent && !c.PlainInside && rapid.IntRange(0, 4).Draw(t, "rewrite") == 0 {
@@ -574,10 +616,16 @@ func genCase(t *rapid.T) Case {
 		} else if !c.PlainInside && rapid.IntRange(0, 7).Draw(t, "mark_insecure") == 0 {
 			in.MarkInsecure = true
 		}
+		if !in.Hijack && i == n-1 && rapid.IntRange(0, 5).Draw(t, "close_delimited") == 0 {
+			in.CloseDelimited = true
+		}
 		c.Inner = append(c.Inner, in)
 		if in.Hijack {
 			break
 		}
+	}
+	if !transparent && rapid.IntRange(0, 4).Draw(t, "split_first") == 0 {
+		c.SplitFirstMs = rapid.SampledFrom([]int{5, 30}).Draw(t, "split_first_ms")
 	}
 	return c
 }
@@ -620,6 +668,12 @@ func classes(c Case) []string {
 			out = append(out, "h2-configured+client-without-alpn")
 		}
 	}
+	if c.SplitFirstMs > 0 {
+		out = append(out, "first-tunnel-byte-travels-alone")
+	}
+	if c.PlainInside && c.Listener == "tls-connect" {
+		out = append(out, "cleartext-tunnel-carried-by-a-tls-connection")
+	}
 	if c.TimeoutMs > 0 {
 		out = append(out, "session-in-use-longer-than-the-timeout")
 	}
@@ -631,6 +685,9 @@ func classes(c Case) []string {
 		}
 		if in.MarkInsecure {
 			set["modifier-marks-session-insecure"] = true
+		}
+		if in.CloseDelimited {
+			set["response-delimited-by-close"] = true
 		}
 	}
 	for k := range set {
